@@ -14,7 +14,7 @@ import (
 func init() {
 	eng.Register(&eng.Check{
 		ID:          "C08",
-		Rule:        "E1 two-run non-interference: a struct with a renamed field (bexpr:\"v\" json:\"jv\"), fields hidden under each tag name (bexpr:\"-\", json:\"-\", pointer:\"-\"), an unexported field and a rename-colliding field (tag = Go name of a hidden field), placed at top level / behind a pointer / as map value / slice element / [1]S and *[2]S array element / nested struct field / embedded struct (also asked for by the promoted names) / []*S element; EVERY assignment of a 3-value hidden-content alphabet (the literal used by the expressions, the zero value nil, a map holding it) to the 4 hideable fields (81 data per nesting), in two variants (visible fields non-zero / all visible fields zero); data are grouped by their projection on the fields visible under the configuration (tag name in {bexpr, json, \"\"} x unknown value {none, \"secret\"}); oracle: (a) every expression (hidden field by Go name, tag name, JSON pointer, through quantifiers, in / is empty / matches / == on the field, on the enclosing struct and on the container holding it) has ONE outcome per group; (b) agreement with the reference (a hidden field never resolves to its content; renamed field only under its tag name); (c) Filter.Execute over the members of one group keeps all or none. Distinct by construction; non-trivial = group with >=2 members differing in hidden contents.",
+		Rule:        "E1 two-run non-interference: a struct with a renamed field (bexpr:\"v\" json:\"jv\"), fields hidden under each tag name (bexpr:\"-\", json:\"-\", pointer:\"-\"), an unexported field and a rename-colliding field (tag = Go name of a hidden field), placed at top level / behind a pointer / as map value / slice element / [1]S and *[2]S array element / nested struct field / embedded struct (also asked for by the promoted names) / []*S element; EVERY assignment of a 3-value hidden-content alphabet (the literal used by the expressions, the zero value nil, a map holding it) to the 4 hideable fields (81 data per nesting), in two variants (visible fields non-zero / all visible fields zero); data are grouped by their projection on the fields visible under the configuration (tag name in {bexpr, json, \"\", a key with a non-ASCII letter and punctuation} x unknown value {none, \"secret\"}); oracle: (a) every expression (hidden field by Go name, tag name, JSON pointer, through quantifiers, in / is empty / matches / == on the field, on the enclosing struct and on the container holding it) has ONE outcome per group; (b) agreement with the reference (a hidden field never resolves to its content; renamed field only under its tag name); (c) Filter.Execute over the members of one group keeps all or none. Distinct by construction; non-trivial = group with >=2 members differing in hidden contents.",
 		Assumptions: []string{"reference interpreter as C01", "hidden-content alphabet of 3 values"},
 		Run:         runC08,
 	})
@@ -29,31 +29,34 @@ var c08ZeroVisible bool
 func c08Struct(h, j, u, p *Node) *Node {
 	if c08ZeroVisible {
 		return NStruct(
-			F{Name: "V", Tag: `bexpr:"v" json:"jv" pointer:"pv"`, V: NNilAny()},
-			F{Name: "H", Tag: `bexpr:"-" json:"h"`, V: NAny(h)},
-			F{Name: "J", Tag: `json:"-"`, V: NAny(j)},
+			F{Name: "V", Tag: `bexpr:"v" json:"jv" pointer:"pv" é-tag.v2:"jv"`, V: NNilAny()},
+			F{Name: "H", Tag: `bexpr:"-" json:"h" é-tag.v2:"h"`, V: NAny(h)},
+			F{Name: "J", Tag: `json:"-" é-tag.v2:"-"`, V: NAny(j)},
 			F{Name: "u", Unexp: true, V: NAny(u)},
-			F{Name: "R", Tag: `bexpr:"H" json:"J" pointer:"P"`, V: NNilAny()},
-			F{Name: "P", Tag: `pointer:"-" json:"p"`, V: NAny(p)},
+			F{Name: "R", Tag: `bexpr:"H" json:"J" pointer:"P" é-tag.v2:"J"`, V: NNilAny()},
+			F{Name: "P", Tag: `pointer:"-" json:"p" é-tag.v2:"p"`, V: NAny(p)},
 			F{Name: "N", V: NInt(KInt, false, 0)},
 		)
 	}
 	return NStruct(
-		F{Name: "V", Tag: `bexpr:"v" json:"jv" pointer:"pv"`, V: NAny(str("vis"))},
-		F{Name: "H", Tag: `bexpr:"-" json:"h"`, V: NAny(h)},
-		F{Name: "J", Tag: `json:"-"`, V: NAny(j)},
+		F{Name: "V", Tag: `bexpr:"v" json:"jv" pointer:"pv" é-tag.v2:"jv"`, V: NAny(str("vis"))},
+		F{Name: "H", Tag: `bexpr:"-" json:"h" é-tag.v2:"h"`, V: NAny(h)},
+		F{Name: "J", Tag: `json:"-" é-tag.v2:"-"`, V: NAny(j)},
 		F{Name: "u", Unexp: true, V: NAny(u)},
-		F{Name: "R", Tag: `bexpr:"H" json:"J" pointer:"P"`, V: NAny(str("renamed"))},
-		F{Name: "P", Tag: `pointer:"-" json:"p"`, V: NAny(p)},
+		F{Name: "R", Tag: `bexpr:"H" json:"J" pointer:"P" é-tag.v2:"J"`, V: NAny(str("renamed"))},
+		F{Name: "P", Tag: `pointer:"-" json:"p" é-tag.v2:"p"`, V: NAny(p)},
 	)
 }
+
+// c08OddTag: a legal struct-tag key with a non-ASCII letter and punctuation; the struct declares under it exactly what it declares under json
+const c08OddTag = "\u00e9-tag.v2"
 
 // which of (H,J,u,P) are hidden under a tag name
 func c08HiddenSet(tag string) [4]bool {
 	switch tag {
 	case "bexpr":
 		return [4]bool{true, false, true, false}
-	case "json":
+	case "json", c08OddTag:
 		return [4]bool{false, true, true, false}
 	}
 	return [4]bool{false, false, true, true} // "" => "pointer"
@@ -134,7 +137,7 @@ func c08Exprs(prefix []string) []any {
 
 func runC08(c *eng.Ctx) {
 	nests := c08Nests()
-	cfgs := []Cfg{{Tag: "bexpr"}, {Tag: "json"}, {Tag: ""}, {Tag: "bexpr", Unknown: str("secret")}, {Tag: "json", Unknown: str("secret")}}
+	cfgs := []Cfg{{Tag: "bexpr"}, {Tag: "json"}, {Tag: ""}, {Tag: "bexpr", Unknown: str("secret")}, {Tag: "json", Unknown: str("secret")}, {Tag: c08OddTag}}
 	// all 81 hidden-content assignments
 	type datum struct {
 		hid  [4]int
